@@ -164,10 +164,10 @@ def dump_to_sexpr(dump):
         if kind == "TypeName":
             return ("TypeName",)
         kids = []
-        for h in hs:
-            if h.startswith("n") and h != "n-":
+        for h in re.findall(r"n\d+|L\([^)]*\)", " ".join(hs)):
+            if h.startswith("n"):
                 kids.append(build(int(h[1:])))
-            elif h.startswith("L(") or h.endswith(")") and "," in h:
+            else:
                 for e in re.findall(r"(\d+),\d+", h):
                     kids.append(build(int(e)))
         return (kind,) + tuple(kids)
@@ -240,6 +240,104 @@ def run(ctx):
                            {"component": "tree", "case": "%s e %s" % (OPTS, t.encode().hex()), "impl": gs, "model": m}, no_input=not derivable)
             if m != "FAIL": nviol += 1
             else: ncorr += 1
+    # ---- 1b. ALL-LAYERS model (Expr.lean; theorem expr_parse_pp) <-> real parser: token strings over operands, N-ary / prefix / postfix
+    # operators, `? :`, parentheses, brackets, member access, casts: every string of up to 3 (thorough 4) of 17 tokens, printed derivable
+    # trees and their token mutations.  Operands are constants (no parenthesised identifier: that is C09's cast ambiguity), member names
+    # identifiers, the type name `int`.
+    ALPHA = {"a": None, "T": "int", "PlusToken": "+", "AsteriskToken": "*", "MinusToken": "-", "EqualsToken": "=", "CommaToken": ",", "QuestionToken": "?",
+             "ColonToken": ":", "OpenParenToken": "(", "CloseParenToken": ")", "OpenBracketToken": "[", "CloseBracketToken": "]", "DotToken": ".",
+             "PlusPlusToken": "++", "ExclamationToken": "!", "BarBarToken": "||"}
+    MORE = {"ArrowToken": "->", "MinusMinusToken": "--", "AmpersandToken": "&", "TildeToken": "~", "PlusEqualsToken": "+=", "LessThanToken": "<",
+            "LessThanLessThanToken": "<<", "AmpersandAmpersandToken": "&&", "SlashToken": "/", "EqualsEqualsToken": "==", "CaretToken": "^", "BarToken": "|",
+            "GreaterThanGreaterThanEqualsToken": ">>=", "PercentToken": "%", "LessThanEqualsToken": "<=", "ExclamationEqualsToken": "!="}
+    SPELL = dict(ALPHA); SPELL.update(MORE)
+
+    def render(toks):
+        out = []
+        for j, t in enumerate(toks):
+            if t == "a":
+                out.append("m" if j and toks[j - 1] in ("DotToken", "ArrowToken") else "1")
+            else:
+                out.append(SPELL[t])
+        return " ".join(out)
+
+    def gen_model_tree(d):
+        """token list of a random derivable-or-not tree over the model's node kinds (printed with few parentheses: both derivable and not)"""
+        if d <= 0 or rng.random() < 0.2:
+            return ["a"]
+        k = rng.randrange(14)
+        sub = lambda: gen_model_tree(d - 1)
+        if k <= 3: return sub() + [rng.choice([x for x in SPELL if x in BINTOK])] + sub()
+        if k == 4: return sub() + ["QuestionToken"] + sub() + ["ColonToken"] + sub()
+        if k == 5: return [rng.choice(["ExclamationToken", "MinusToken", "PlusPlusToken", "AsteriskToken", "AmpersandToken", "TildeToken", "MinusMinusToken", "PlusToken"])] + sub()
+        if k == 6: return sub() + [rng.choice(["PlusPlusToken", "MinusMinusToken"])]
+        if k == 7: return ["OpenParenToken", "T", "CloseParenToken"] + sub()
+        if k == 8: return sub() + ["OpenBracketToken"] + sub() + ["CloseBracketToken"]
+        if k == 9: return sub() + [rng.choice(["DotToken", "ArrowToken"]), "a"]
+        if k == 10:
+            args = [sub() for _ in range(rng.randrange(0, 4))]
+            return sub() + ["OpenParenToken"] + [x for j, a in enumerate(args) for x in (["CommaToken"] if j else []) + a] + ["CloseParenToken"]
+        if k == 11: return sub() + ["QuestionToken", "ColonToken"] + sub()
+        return ["OpenParenToken"] + sub() + ["CloseParenToken"]
+    BINTOK = {v[0] for v in BIN.values()}
+    strings = []
+    alpha = list(ALPHA)
+    for n_ in (1, 2, 3) if ctx.quick else (1, 2, 3, 4):
+        strings += [list(p_) for p_ in itertools.product(alpha, repeat=n_)]
+    allsym = list(SPELL)
+    for _ in range(4000 if ctx.quick else 60000):
+        t = gen_model_tree(rng.choice([1, 2, 2, 3, 3, 4]))
+        if len(t) > 40:
+            continue
+        strings.append(t)
+        m_ = list(t)
+        for _ in range(rng.randrange(1, 3)):
+            j = rng.randrange(len(m_) + 1)
+            r_ = rng.random()
+            if r_ < 0.35 and m_: del m_[min(j, len(m_) - 1)]
+            elif r_ < 0.7: m_.insert(j, rng.choice(allsym))
+            elif m_: m_[min(j, len(m_) - 1)] = rng.choice(allsym)
+        if m_:
+            strings.append(m_)
+    strings = [t for t in strings if not any(t[j] == "AmpersandAmpersandToken" and (j == 0 or t[j - 1] not in ("a", "CloseParenToken", "CloseBracketToken", "PlusPlusToken", "MinusMinusToken")) for j in range(len(t)))]
+    # a type name is ONE token of the model (`T`), modelled where it stands between parentheses: `( int int )`, `( int * )`, `int + 1` are outside the model
+    strings = [t for t in strings if not any(t[j] == 'T' and not (0 < j < len(t) - 1 and t[j - 1] == 'OpenParenToken' and t[j + 1] == 'CloseParenToken') for j in range(len(t)))]
+    texts_b = [render(t) for t in strings]
+    lines_b = ["%s e %s" % (OPTS, t.encode().hex()) for t in texts_b]
+    impl_b = stages.run_harness(ctx, "tree", lines_b)
+    model_b = leanb.model("expr", "\n".join(" ".join(t) for t in strings) + "\n")
+    nb_ok = nb_fail = nb_notok = 0
+    notok_samples = []
+    for t, txt, i, m, l in zip(strings, texts_b, impl_b, model_b, lines_b):
+        if i.startswith(("CRASH", "HANG")):
+            ctx.report("crash:" + txt[:80], "parsing %r: %s" % (txt, i[:200]), {"component": "tree", "case": l}); nviol += 1; continue
+        diags = i.split(" | ")[-1]
+        full = re.search(r"N0 \w+ f1 l%d " % len(t), i) is not None
+        got = dump_to_sexpr(i) if diags == "-" and full else None
+
+        def normb(e):
+            if e[0] in ("IdentifierName", "IntegerConstantExpression"): return ("a",)
+            return (e[0],) + tuple(normb(c) for c in e[1:])
+        gs = sx(normb(got)) if got else "FAIL"
+        if m == "UNMODELLED":
+            continue
+        ms = m if m == "FAIL" else m[2:]
+        if m != "FAIL":
+            nb_ok += 1
+            nb_notok += m[0] == "0"
+            if m[0] == "0" and len(notok_samples) < 12: notok_samples.append(txt)
+        else:
+            nb_fail += 1
+        if gs != ms:
+            derivable = m.startswith("1 ")
+            if ncorr + nviol < 6:
+                ctx.report(("expr:" if derivable else "corr:") + txt[:100],
+                           "expression %r: the parser built %s, %s %s" % (txt, gs, "the C grammar (Lean model of the parser, proved to invert the grammar's printing) gives" if derivable
+                                                                        else "the Lean model of the parser gives", ms),
+                           {"component": "tree", "case": l, "impl": gs, "model": ms, "tokens": " ".join(t)}, no_input=not derivable)
+            if derivable: nviol += 1
+            else: ncorr += 1
+    ctx.notes["all_layers_model"] = ({"strings": len(strings), "parsed_by_both": nb_ok, "rejected_by_model": nb_fail, "parsed_but_not_derivable(ok=0)": nb_notok, "not_derivable_samples": notok_samples})
     # ---- 2. round trip over all operators
     n = 3000 if ctx.quick else 60000
     cases = []
